@@ -118,7 +118,9 @@ func checkInterchange(c boxprop.Case) *harness.Fail {
 		}
 	}
 	// box level vs file level: a file that consists of this one box
-	if c.Level == "box" {
+	// (boxes that hold a senc box are left out: the file decoders re-parse senc with an IV size taken from
+	// the init segment or inferred from the data, which a box decoded on its own does not have)
+	if c.Level == "box" && !bytes.Contains(canon, []byte("senc")) && !bytes.Contains(canon, piffSencUUID) {
 		for _, p := range []string{"reader", "sr"} {
 			df, err := boxprop.Decode(canon, "file", p)
 			if err != nil {
@@ -155,6 +157,8 @@ func errSite(err error) string {
 	}
 	return site + ": " + numRe.ReplaceAllString(cls, "N")
 }
+
+var piffSencUUID = []byte{0xa2, 0x39, 0x4f, 0x52, 0x5a, 0x9b, 0x4f, 0x14, 0xa2, 0x44, 0x6c, 0x42, 0x7c, 0x64, 0x8d, 0xf4}
 
 func firstDiff(a, b []byte) string {
 	n := len(a)
